@@ -100,3 +100,80 @@ def component_suite(names, stats, tier=None, reps=None, want_jac=True, label="co
                         stats.sample(dict(suite=label, component=name, nx=nx, ny=ny, symmetry=sym,
                                           n_inputs=info["n_in"], n_outputs=info["n_out"]))
     return stats
+
+
+# ----------------------------------------------------------------------------------------
+# end-to-end: real AeroPoint vs the model's VLMStates pipeline
+# ----------------------------------------------------------------------------------------
+def aero_case(rng, tier, force=None):
+    from . import pipelines
+    force = force or {}
+    ns = force.get("ns", int(rng.choice([1, 1, 2, 3])))
+    ground = force.get("ground", bool(rng.uniform() < 0.25))
+    rotational = force.get("rotational", bool(rng.uniform() < 0.3))
+    surfaces = []
+    sizes = [(2, 2), (2, 3), (3, 3), (2, 4), (3, 2)] if tier == "quick" else [(2, 2), (2, 3), (3, 3), (2, 5), (4, 3), (3, 6), (5, 4)]
+    for k in range(ns):
+        nx, ny = sizes[int(rng.integers(len(sizes)))]
+        sym = True if ground else bool(rng.integers(2))
+        if not sym and ny % 2 == 0:
+            ny += 1
+        right = bool(sym and rng.uniform() < 0.35)
+        mesh = gen.rand_mesh(rng, nx, ny, sym, right=right)
+        mesh[:, :, 0] += 5.0 * k
+        mesh[:, :, 2] += 0.8 * k
+        s = pipelines.aero_surface("surf%d" % k, mesh, sym, S_ref_type=str(rng.choice(["wetted", "projected"])))
+        if ground:
+            s["groundplane"] = True
+        surfaces.append(s)
+    flow = dict(alpha=float(rng.uniform(-15, 15)), beta=0.0 if ground or any(s["symmetry"] for s in surfaces) and rng.uniform() < 0.5
+                else float(rng.uniform(-15, 15)),
+                v=float(rng.uniform(20, 250)), rho=float(rng.uniform(0.3, 1.25)), cg=rng.normal(size=3) * 2,
+                omega=rng.normal(size=3) * 0.2, height_agl=float(rng.uniform(2, 60)))
+    return surfaces, flow, rotational
+
+
+def model_vlm_states(surfaces, flow, rotational, meshes=None):
+    from .pipelines import left_flag
+    ints = [int(rotational), len(surfaces)]
+    fl = [flow["alpha"], flow["beta"], flow["v"], flow["rho"]] + list(flow["omega"]) + list(flow["cg"]) + [flow.get("height_agl", 0.0)]
+    for k, s in enumerate(surfaces):
+        m = s["mesh"]
+        ints += [m.shape[0], m.shape[1], int(s["symmetry"]), int(left_flag(m)), int(bool(s.get("groundplane", False)))]
+        fl += list(np.asarray(m if meshes is None else meshes[k], dtype=float).ravel())
+    out = core.model_value("VLMStates", ints, np.array(fl))
+    N = sum((s["mesh"].shape[0] - 1) * (s["mesh"].shape[1] - 1) for s in surfaces)
+    return dict(circulations=out[:N], panel_forces=out[N:4 * N].reshape(N, 3), mtx=out[4 * N:4 * N + N * N].reshape(N, N),
+                rhs=out[4 * N + N * N:])
+
+
+def aero_pipeline_suite(stats, tier=None, n=None, label="pipeline:AeroPoint"):
+    from . import pipelines
+    tier = tier or core.TIER
+    n = n if n is not None else (8 if tier == "quick" else 60)
+    for k in range(n):
+        rng = core.rng_for("aero_pipeline", k)
+        surfaces, flow, rotational = aero_case(rng, tier)
+        prob = pipelines.run_aero_point(surfaces, flow, rotational=rotational)
+        real = pipelines.aero_outputs(prob, surfaces)
+        mod = model_vlm_states(surfaces, flow, rotational)
+        real_forces = np.concatenate([real[s["name"]]["sec_forces"].reshape(-1, 3) for s in surfaces])
+        real_mtx = np.array(prob.get_val("pt.aero_states.mtx")); real_rhs = np.array(prob.get_val("pt.aero_states.rhs"))
+        cond = float(np.linalg.cond(real_mtx))
+        tol = 1e-9 + 1e-13 * cond
+        for what, a, b, t in (("mtx", real_mtx, mod["mtx"], 1e-9), ("rhs", real_rhs, mod["rhs"], 1e-9),
+                              ("circulations", real["circulations"], mod["circulations"], tol),
+                              ("sec_forces", real_forces, mod["panel_forces"], tol)):
+            ok, msg = close_vec(a, b, rtol=t)
+            if not ok:
+                stats.disagreements.append(dict(kind="pipeline-value", component="AeroPoint:" + what, size=[s["mesh"].shape[:2] for s in surfaces],
+                                                detail=msg, seed_keys=["aero_pipeline", k]))
+        h = case_hash("aero", k, flow["alpha"], surfaces[0]["mesh"])
+        stats.count(label, h, bool(np.any(np.abs(real_forces) > 0)),
+                    ("surfaces=%d" % len(surfaces), "ground=%s" % any(s.get("groundplane", False) for s in surfaces),
+                     "rotational=%s" % rotational, "sideslip=%s" % (flow["beta"] != 0)))
+        if k == 0:
+            stats.sample(dict(suite=label, surfaces=[dict(shape=list(s["mesh"].shape), symmetry=s["symmetry"]) for s in surfaces],
+                              flow={kk: (vv if np.isscalar(vv) else list(vv)) for kk, vv in flow.items()}, rotational=rotational,
+                              CL=real["CL"], cond=cond))
+    return stats
